@@ -56,7 +56,7 @@ def _csr_leaf(draw, dw):
     if kind == "gpio" and dw % 8:
         kind = "mux"      # gpio.Peripheral builds its registers with granularity 8
     if kind == "mux":
-        return {"t": "mux", "lay": draw(gens.csr_layout(max_regs=3, dws=(dw,), overlaps=False))}
+        return {"t": "mux", "lay": draw(gens.csr_layout(max_regs=3, dws=(dw,), overlaps=False, high=True))}
     if kind == "regbridge":
         regs = []
         for _ in range(draw(st.integers(1, 4))):
